@@ -33,7 +33,7 @@ CLAIMED = {
          "DESIGN.md §6 C03"),
  "C04": ("exploration",
          "configuration differential across processes: the same generated world and queries are executed in long-lived child processes that differ only in PARALLEL_THRESHOLD / RAYON_NUM_THREADS (never parallel vs every operator parallel at every size, 4 and 2 workers), each query twice per process; answers are compared across processes and across the two executions",
-         "Generated-input search: 12k worlds (about 23k queries x 3 configurations x 2 executions) quick / 400k thorough; tables of up to 10 or up to 60 rows, queries from the typed grammar (joins incl. hash-join shapes, WHERE, subqueries, DISTINCT, aggregates, GROUP BY/HAVING, set operations, ORDER BY over all output columns with LIMIT/OFFSET).",
+         "Generated-input search: 12k worlds (about 23k queries x 3 configurations x 2 executions) quick / 150k thorough; tables of up to 10 or up to 60 rows, queries from the typed grammar (joins incl. hash-join shapes, WHERE, subqueries, DISTINCT, aggregates, GROUP BY/HAVING, set operations, ORDER BY over all output columns with LIMIT/OFFSET).",
          "rayon's thread interleavings are sampled, not enumerated (one schedule per configuration and case); DOUBLE results compared with tolerance 1e-9; a child that dies or hangs makes the run inconclusive (exit 2), not a violation.",
          "DESIGN.md §6 C04"),
  "C05": ("exploration",
@@ -88,7 +88,7 @@ CLAIMED = {
          "DESIGN.md §6 C12"),
  "C13": ("exploration",
          "history invariant + twin-database differential for transactions: the engine's complete observation (tables, columns, rows, index names, views, triggers) and a battery of index-driven queries before BEGIN vs after ROLLBACK, later statements vs a twin that executed only the committed prefix; COMMIT vs a twin that ran the body in auto-commit mode",
-         "Generated-input search: 60k histories quick / 2M thorough; bodies mix DML on tables with PRIMARY KEY / UNIQUE / user indexes / FOREIGN KEYs with CREATE INDEX, DROP INDEX, CREATE/DROP TABLE, CREATE/DROP VIEW, ALTER TABLE ADD COLUMN, TRUNCATE; 0-4 statements follow the end of the transaction and are compared with the twin after each.",
+         "Generated-input search: 60k histories quick / 1M thorough; bodies mix DML on tables with PRIMARY KEY / UNIQUE / user indexes / FOREIGN KEYs with CREATE INDEX, DROP INDEX, CREATE/DROP TABLE, CREATE/DROP VIEW, ALTER TABLE ADD COLUMN, TRUNCATE; 0-4 statements follow the end of the transaction and are compared with the twin after each.",
          "Single session; the reference is the engine itself (own earlier observation / re-executed twin), so defects common to both sides belong to C09-C15.",
          "DESIGN.md §6 C13"),
  "C14": ("exploration",
@@ -98,7 +98,7 @@ CLAIMED = {
          "DESIGN.md §6 C14"),
  "C33": ("exploration",
          "model-based (stateful) testing of schema changes: histories of CREATE/DROP TABLE, CREATE/DROP INDEX, ALTER TABLE ADD/DROP/CHANGE COLUMN, ADD/DROP CONSTRAINT and DML with heavy name re-use and identifier case variants, compared after every statement with a model of tables, columns, rows and indexes",
-         "Generated-input search: 40k histories (about 500k statements) quick / 1.5M histories thorough; after every statement: statement validity agrees with the model, list_tables / catalog schema / stored schema / stored rows / SELECT * / SELECT <declared columns> / list_indexes / index-driven probes all equal the model.",
+         "Generated-input search: 40k histories (about 500k statements) quick / 600k histories thorough; after every statement: statement validity agrees with the model, list_tables / catalog schema / stored schema / stored rows / SELECT * / SELECT <declared columns> / list_indexes / index-driven probes all equal the model.",
          "RENAME TABLE, MODIFY COLUMN and dropping/renaming a column used by an index or constraint are outside the generated domain (the statement does not define their outcome); unquoted identifiers only.",
          "DESIGN.md §6 C33"),
  "C34": ("exploration",
@@ -113,12 +113,12 @@ CLAIMED = {
          "DESIGN.md §6 C30"),
  "C32": ("exploration",
          "metamorphic testing of views and CTEs: a generated query over v0 is executed with v0 as a view, as a WITH clause and with v0 replaced by its defining SELECT as a derived table; the three forms must agree, again after every generated change of the base tables",
-         "Generated-input search: 100k cases quick / 3M thorough; definitions with joins, WHERE, CASE/COALESCE, DISTINCT, aggregates/GROUP BY/HAVING and explicit column lists; outer queries with WHERE on view columns, joins with base tables, aggregates, set operations; empty views and views created before their tables are loaded are generated on purpose.",
+         "Generated-input search: 100k cases quick / 2M thorough; definitions with joins, WHERE, CASE/COALESCE, DISTINCT, aggregates/GROUP BY/HAVING and explicit column lists; outer queries with WHERE on view columns, joins with base tables, aggregates, set operations; empty views and views created before their tables are loaded are generated on purpose.",
          "The reference is the engine's own derived-table execution (C01 decides that); no LIMIT/OFFSET, RIGHT/FULL joins, self joins or subqueries in the outer query.",
          "DESIGN.md §6 C32"),
  "C16": ("exploration",
          "configuration differential on twin databases: the same generated DDL/DML history and queries run on Database::new() (in-memory indexes) and on a database with memory budget 0 and SpillPolicy::SpillToDisk (every non-empty index is spilled to and maintained in the disk-backed B+ tree)",
-         "Generated-input search: 25k histories (about 75k compared queries) quick / 1M thorough, cases as in C02 (duplicate keys, NULL keys, multi-column / DESC / prefix / UNIQUE indexes, updates of indexed columns, deletes, DROP+CREATE INDEX); a floor requires that at least half of the cases run statements against a disk-backed index.",
+         "Generated-input search: 25k histories (about 75k compared queries) quick / 300k thorough, cases as in C02 (duplicate keys, NULL keys, multi-column / DESC / prefix / UNIQUE indexes, updates of indexed columns, deletes, DROP+CREATE INDEX); a floor requires that at least half of the cases run statements against a disk-backed index.",
          "The 100k-row table-size threshold selects the same DiskBacked code and is not generated; the in-memory twin is the reference (C02 compares it with index-free execution).",
          "DESIGN.md §6 C16"),
  "C25": ("exploration",
